@@ -258,11 +258,13 @@ class Ctx:
         return d.value
 
     # -- obligations ------------------------------------------------------------------------
-    def prove(self, name, goal, kind="post", info=None, extra_pool=()):
+    def prove(self, name, goal, kind="post", info=None, extra_pool=(), pool=None):
+        """pool: explicit instantiation terms for this obligation (instead of the path's whole index pool)"""
         goal = as_bool_term(goal)
         for e in extra_pool:
             self.add_index(e)
-        ob = Obligation(name, self.hyps, self.schemas, self.pool, goal, kind, info, derivers=self.derivers)
+        use = self.pool if pool is None else [z3.simplify(as_int_term(t)) for t in pool]
+        ob = Obligation(name, self.hyps, self.schemas, use, goal, kind, info, derivers=self.derivers)
         ob.guards = list(self.goal_guards)
         self.obligations.append(ob)
         return ob
